@@ -85,6 +85,16 @@ def run(ctx):
     sk = [c for _, c in M.calls(body) if M.callee_name(c).endswith("<impl [T]>::sort_by_key") or M.callee_name(c).endswith("sort_by_key")]
     vty = [t for t in body["locals"] if t.startswith("(usize, core::option::Option<ruma_common::time::MilliSecondsSinceUnixEpoch>, &")]
     ctx.check(len(sk) == 1 and bool(vty), "C06.orders", "C06.orders:mainline-sort", w.where(f), bad_msg="mainline_sort does not sort_by_key on the (usize, Option<ts>, &Id) tuple")
+    # ... and every successful return goes through that sort (the input comes from a HashSet): the only shortcut is the empty input
+    try:
+        dxs = D.Dex(w.lookup, adt_discr=w.adt_discr, unroll=1, inline=lambda n: False, effects=lambda n: "sort" in n.rsplit("::", 1)[-1], max_paths=200000)
+        sp = [p for p in dxs.paths(f, [D.sym("to_sort"), D.sym("resolved_pl"), D.sym("fetch")]) if p.kind == "ret" and U.is_ok(p.ret)]
+        unsorted = [p for p in sp if not p.effects and not any(t and re.fullmatch(r"(?:\w+::)*is_empty\(to_sort\)", D.show_atom(a)) for a, t in p.conds)]
+        ctx.check(bool(sp) and not unsorted, "C06.orders", "C06.orders:mainline-sort:every-return", w.where(f),
+                  bad_msg=f"mainline_sort has a successful return that skips the sort although the input is not empty (under {[(D.show_atom(a)[:60], t) for a, t in unsorted[0].conds][:3] if unsorted else ''}): "
+                          f"the events keep the hash order they arrived in")
+    except D.Unrecognised as e:
+        ctx.unrecognised("C06.orders", "C06.orders:mainline-sort:every-return", w.where(f), str(e))
     # the heap of the Kahn sort holds Reverse<TieBreaker>
     fl = w.fn(SR + "lexicographical_topological_sort")
     heap = [t for t in fl["body"]["locals"] if t.startswith("alloc::collections::binary_heap::BinaryHeap<core::cmp::Reverse<")]
